@@ -206,3 +206,29 @@ pub fn vextend_missing_tree(set: &mut VIdSet<TreeIdC>, subtree: &Option<TreeIdC>
 // BinaryHeap::new()
 #[verifier::external_body]
 pub fn vheap_new() -> (r: VHeap) ensures r.items@.len() == 0, { unimplemented!() }
+
+// ---- copy: the walk that finds the blobs to copy ----
+pub struct VBeCW { pub _opaque: u64 }
+pub struct VSrcIndexCW { pub _opaque: u64 }
+pub struct ProgressCW { pub _opaque: u64 }
+pub struct PathCW { pub _opaque: u64 }
+pub struct VTreeWalkC { pub left: Ghost<nat> }   // `left`: trees still to come (the stream is finite)
+impl VTreeWalkC {
+    // TreeStreamerOnce::new(be, index, roots, p): streams every tree reachable from `roots` once.  PRECONDITION (copy): the
+    // walk starts from the root trees of ALL snapshots that are copied -- a root the destination already has says nothing
+    // about the blobs below it
+    #[verifier::external_body]
+    pub fn vnew(be: &VBeCW, index: &VSrcIndexCW, roots: Vec<TreeIdC>, p: ProgressCW, all_roots: Ghost<Seq<TreeIdC>>) -> (r: RusticResult<VTreeWalkC>)
+        requires roots@ == all_roots@,
+    { unimplemented!() }
+    #[verifier::external_body]
+    pub fn next(&mut self) -> (r: Option<RusticResult<(PathCW, TreeC)>>)
+        ensures r is Some ==> old(self).left@ > 0 && final(self).left@ == old(self).left@ - 1, r is None ==> final(self).left@ == old(self).left@,
+    { unimplemented!() }
+}
+pub fn vtranspose_c<T>(o: Option<RusticResult<T>>) -> (r: RusticResult<Option<T>>)
+    ensures r == (match o { Some(Ok(x)) => Ok::<Option<T>, Box<RusticError>>(Some(x)), Some(Err(e)) => Err::<Option<T>, Box<RusticError>>(e), None => Ok::<Option<T>, Box<RusticError>>(None) }),
+{ match o { Some(Ok(x)) => Ok(Some(x)), Some(Err(e)) => Err(e), None => Ok(None) } }
+// the per-tree node loop (unit copy_collect_nodes), seen as one call
+#[verifier::external_body]
+pub fn vcollect_nodes(tree: TreeC, data_ids: &mut VIdSet<DataIdC>, tree_ids: &mut VIdSet<TreeIdC>, index_dest: &VDestIndex) { unimplemented!() }
